@@ -41,7 +41,7 @@ Definition c14_eval_case : Type := string * Z.
 Definition c14_eval_ok (c : c14_eval_case) : bool :=
   let '(text, want) := c in
   match eval_arith (strip_annotations text) with
-  | Some v => (v =? want)%Z
+  | Some v => (wrap64 v =? want)%Z        (* the VM's int64 wrap, applied once to the exact value *)
   | None => false
   end.
 
